@@ -148,6 +148,20 @@ func runC04w(s *sut.SUT, cs c04wCase) (rule, detail string) {
 		if g.attempt != 2 {
 			return "delivery-attempt", fmt.Sprintf("second delivery of message %s reports delivery_attempt %d", g.data, g.attempt)
 		}
+		// the second lease starts when the waiter was handed the message, not
+		// when it began to wait: half-way through it a third consumer gets nothing
+		lease2 := time.Duration(float64(cs.MinMs)*1.21) * time.Millisecond
+		if mx := time.Duration(cs.MaxMs) * time.Millisecond; lease2 > mx {
+			lease2 = mx
+		}
+		if lease2 <= 500*time.Millisecond && cs.NMsgs == 1 {
+			time.Sleep(time.Until(g.at.Add(lease2 / 2)))
+			third, err := s.Sub.Pull(ctx, &pubsubpb.PullRequest{Subscription: c4wS, MaxMessages: 10, ReturnImmediately: true})
+			if err == nil && len(third.ReceivedMessages) > 0 && time.Since(g.at) < lease2-30*time.Millisecond {
+				return "early-redelivery", fmt.Sprintf("message %s was handed to a waiting %s as attempt 2 (retry deadline %v later); a third consumer received it %v after that hand-out (attempt %d) - the waiter had been waiting for %v",
+					g.data, kind, lease2, time.Since(g.at).Round(time.Millisecond), third.ReceivedMessages[0].DeliveryAttempt, g.at.Sub(after).Round(time.Millisecond))
+			}
+		}
 	case <-time.After(time.Until(latest)):
 		return "late-redelivery", fmt.Sprintf("%d messages delivered as attempt 1 with retry policy %d-%d ms (deadline %v, jitter < %v): a %s waiting since +%d ms had received nothing %v after the first delivery", cs.NMsgs, cs.MinMs, cs.MaxMs, delay, jitter, kind, cs.LateMs, time.Since(after).Round(time.Millisecond))
 	}
